@@ -81,18 +81,19 @@ def pad2d(array, Q=2, value=0, mode='constant', out_shape=None):
                 out_shape = [out_shape]*array.ndim
 
         shape_diff = [o-i for o, i in zip(out_shape, in_shape)]
+        # the origin sample (index n//2) of the input must land on the origin
+        # sample of the output for every combination of odd and even sizes
+        before = [o//2 - i//2 for o, i in zip(out_shape, in_shape)]
         pad_shape = []
-        for d in shape_diff:
-            divby2 = d//2
-            lcl = (d-divby2, divby2)  # 13 => 6; (7,6) correct; 12 => 6; (6,6) correct
+        for b, d in zip(before, shape_diff):
+            lcl = (b, d-b)
             pad_shape.append(lcl)
 
         if mode == 'constant':
             # TODO: clean this garbage up, the code here shouldn't be completely
             # non common mode the way it is
 
-            dbytwo = [math.ceil(d/2) for d in shape_diff]
-            slcs = tuple((slice(d, d+s) for d, s in zip(dbytwo, in_shape)))
+            slcs = tuple((slice(b, b+s) for b, s in zip(before, in_shape)))
             out = np.zeros(out_shape, dtype=array.dtype)
             if value != 0:
                 out += value
